@@ -71,6 +71,7 @@ def check(run):
     widen(run, p, I)
     engine(run, p)
     catsync(run, p)
+    evidence(run, p)
     from .. import ief, triage
     ief.run_ief(run, 'C03', [p.fn(RX + 'extract'), p.fn(RX + 'pdextract'), p.method('Extractor', '__init__')], triage=triage.IEF, selfattr=True)
     run.floor('C03-IEF', run.units['ief_functions_checked'], 60)
@@ -407,3 +408,58 @@ def catsync(run, p):
     run.ob('C03-CATSYNC', 'Extractor:Categories', ok, 'Categories(...) is constructed in %s with first arguments %s' % (sorted(fns), sorted({norm(x.args[0]) for _, x in sites if x.args})),
            fn=sites[0][0] if sites else ex.methods['__init__'], node=sites[-1][1] if sites else None)
     run.floor('C03-CATSYNC', len(sites), 2)
+
+
+CAPPED_OK = {'frag_strings': 'the set of distinct fragment strings is only used while it is small (alternation of literals)',
+             'n_strings': 'the counter that enforces the cap'}
+
+
+def evidence(run, p, rid='C03-EVIDENCE'):
+    from ..flow import GuardMap
+    from .common import names_in
+    run.rule(rid, 'sampling caps limit what is remembered, never what is seen: in analyse_fragments every per-fragment accumulator '
+                  'that is returned (characters seen, fine-class and character run-length patterns) is updated for every example '
+                  'of the pattern - its update is not guarded by a Size limit or by the capped string counter; only the set of '
+                  'remembered fragment strings may be capped')
+    f = p.method('Extractor', 'analyse_fragments')
+    rets = [r for r in p.own_nodes(f) if isinstance(r, ast.Return) and r.value is not None]
+    outs = set()
+    for r in rets:
+        outs |= {x.id for x in ast.walk(r.value) if isinstance(x, ast.Name)}
+    gm = GuardMap(f.node)
+    caps = {'n_strings'}
+    n = 0
+    for s in p.own_nodes(f):
+        names = set()
+        if isinstance(s, (ast.Assign, ast.AugAssign)):
+            tg = s.targets if isinstance(s, ast.Assign) else [s.target]
+            for t in tg:
+                for x in ast.walk(t):
+                    if isinstance(x, ast.Subscript) and isinstance(x.value, ast.Name):
+                        names.add(x.value.id)
+        elif isinstance(s, ast.Expr) and isinstance(s.value, ast.Call) and isinstance(s.value.func, ast.Attribute) and \
+                s.value.func.attr in ('add', 'update', 'append', 'extend'):
+            for x in ast.walk(s.value.func.value):
+                if isinstance(x, ast.Name):
+                    names.add(x.id)
+        else:
+            continue
+        names &= outs
+        if not names:
+            continue
+        capped = []
+        for g in gm.chain(s) or ():
+            if g.kind != 'if':
+                continue
+            nm = names_in(g.test)
+            if any(x.startswith(('size.', 'self.size.')) or x in caps for x in nm):
+                capped.append(norm(g.test))
+        for nm in sorted(names):
+            n += 1
+            ok = not capped or nm in CAPPED_OK
+            run.ob(rid, '%s::%s::%s' % (f.rel, f.short, nm), ok,
+                   '%s is updated %s' % (nm, 'for every example' if not capped else
+                                         'only while `%s`%s' % (capped[0], ' (allowed: %s)' % CAPPED_OK[nm] if nm in CAPPED_OK else
+                                                                ': characters or run patterns of later examples are never seen, so the class chosen '
+                                                                'for the fragment can exclude them')), fn=f, node=s)
+    run.floor(rid, n, 4)
